@@ -15,6 +15,10 @@ structure RtExpr where
 inductive Item where
   /-- plain call `r = f()` (arguments not inspected by the analysis: none are passed) -/
   | call (f : String) (line : Nat)
+  /-- plain call with arguments `r = f(args…, kw=…)` (literals are seen by the analysis since the `fix:` commit
+  for plain calls overriding defaults) -/
+  | callArgs (f : String) (args : List AstArg) (kwargs : List (String × AstArg))
+      (rtA : List (Option RtExpr)) (rtK : List (String × Option RtExpr)) (line : Nat)
   /-- the function is named but not called in this source: `r = hof(f)` -/
   | ref (f : String) (line : Nat)
   /-- `r = dds.keep(path, f, args…, kw=…)`; `rtA`/`rtK` say how the run-time arguments are computed -/
